@@ -252,18 +252,6 @@ func (v *verifier) overlapsDataFlush(e *entryRec) bool {
 	return false
 }
 
-// validEntryBetween returns an entry with rows of the partition whose sequence lies in (lo, hi] and whose WriteLog had
-// started at image k.
-func (v *verifier) validEntryBetween(key partKey, k int, lo, hi int64) *entryRec {
-	for i := range v.L.Entries {
-		e := &v.L.Entries[i]
-		if e.Part == key && e.Reject == "" && len(e.Rows) > 0 && e.Seq > lo && e.Seq <= hi && e.First >= 0 && k >= e.First {
-			return e
-		}
-	}
-	return nil
-}
-
 // anyEntryStarted: had a WriteLog of the partition been called when image k was taken?
 func (v *verifier) anyEntryStarted(key partKey, k int) bool {
 	for i := range v.L.Entries {
@@ -400,24 +388,17 @@ func (v *verifier) verifyImage(img imageRec, deep bool) (res *imgResult) {
 			continue
 		}
 		res.Counters["ack_vs_stored_sequence_compared"]++
-		// an acknowledgement above the stored sequence is harmless only over entries that carry nothing: entries the
-		// replicator rejected (IgnoreMessage acknowledges such an entry when everything before it is acknowledged)
 		if o.HasGroup && o.GroupAck > o.Durable {
-			if e := v.validEntryBetween(key, k, o.Durable, o.GroupAck); e != nil {
-				res.fail("C07/ack-ahead-of-stored-sequence", "%s: consumer group of the local replicator acknowledged %d, the data family's recovered version stores sequence %d (log appended %d); entry %d (seq %d, %d rows) lies between",
-					key, o.GroupAck, o.Durable, o.Appended, e.ID, e.Seq, len(e.Rows))
-			} else {
-				res.Counters["images_with_ack_ahead_only_over_rejected_entries"]++
-			}
+			res.fail("C07/ack-ahead-of-stored-sequence", "%s: consumer group of the local replicator acknowledged %d, the data family's recovered version stores sequence %d (log appended %d)",
+				key, o.GroupAck, o.Durable, o.Appended)
 		}
 		if o.QueueAck > o.Durable {
-			switch {
-			case !v.anyEntryStarted(key, k):
+			if !v.anyEntryStarted(key, k) {
 				// the log never held an entry: the page that keeps appended/acknowledged was caught between its creation
 				// (zero filled = "sequence 0") and the two stores that initialise it to -1
 				res.fail("C07/half-initialised-queue-meta-page/truncation-barrier-ahead-of-stored-sequence",
 					"%s: the queue opens with appended=%d acknowledged=%d although nothing was ever appended; the data family stores sequence %d", key, o.Appended, o.QueueAck, o.Durable)
-			case v.validEntryBetween(key, k, o.Durable, o.QueueAck) != nil:
+			} else {
 				res.fail("C07/log-truncation-barrier-ahead-of-stored-sequence", "%s: queue acknowledged %d, the data family's recovered version stores sequence %d", key, o.QueueAck, o.Durable)
 			}
 		}
@@ -924,7 +905,18 @@ func (v *verifier) freshWrite(res *imgResult, n *node.Node, parts map[partKey]*p
 		g2, e2 := queryCells(c, L, sql, "f")
 		if asExpected(g2, e2) {
 			res.Counters["identical_queries_with_different_answers_at_quiescence"]++
-			res.Note["unrepeatable"] = fmt.Sprintf("%q: first answer %v / %v, second answer as expected", sql, got, err)
+			dbgIDs := lookupIDs(n, &rows[0])
+			dbgWhy := v.holeIDs(k).collision(&rows[0], &dbgIDs)
+			if dbgWhy != "" {
+				res.Counters["DBG_transient_with_id_collision"]++
+			} else {
+				res.Counters["DBG_transient_without_id_collision"]++
+			}
+			res.Note["unrepeatable"] = fmt.Sprintf("%q: first answer %v / %v, second answer as expected; ids %+v collision=%q", sql, got, err, dbgIDs, dbgWhy)
+			if f, e := os.OpenFile("/tmp/c10dbg/notes.log", os.O_APPEND|os.O_CREATE|os.O_WRONLY, 0o644); e == nil {
+				fmt.Fprintln(f, res.Note["unrepeatable"])
+				f.Close()
+			}
 			if g3, e3 := queryCells(c, L, sql, "f"); asExpected(g3, e3) {
 				got, err = g3, e3
 			}
